@@ -38,5 +38,5 @@ def run_C07(ctx):
 def run_C12(ctx):
     # the Spec both ends see for a Request that is fresh, already used with another client, or being forwarded
     from . import p_scalars
-    p_scalars.scalars(ctx, {"spec_reuse"}, [])
+    p_scalars.scalars(ctx, {"spec_reuse", "spec_kinds"}, [])
     return run_serve(ctx, lambda s: s["body"] == "good" and s["theader"] == "none")
